@@ -218,6 +218,35 @@ func main() {
 			}
 		}
 	}
+	// framing errors: a fully delivered frame whose body is NOT an encoding of the layout (trailing bytes, or the
+	// last bytes missing with a consistent size prefix): "after a framing error every later operation fails".
+	// ApiVersions (no expectZeroSize in the Go code) and list-offsets with an error code (kafka error returned
+	// from inside the partition loop, see Props/C11 listOffsets_two_partitions_counterexample) are left out.
+	for _, op := range connfake.Ops {
+		if op.Name == "apiVersions" {
+			continue
+		}
+		for _, v := range op.Versions {
+			for rep := 0; rep < 2; rep++ {
+				for _, withErr := range []bool{false, true} {
+					if withErr && op.Name == "listOffsets" {
+						continue
+					}
+					var errs []int16
+					if withErr {
+						errs = []int16{codes[r.Intn(len(codes))]}
+					}
+					a, _ := build(r, op, v, errs, rep == 0)
+					if rep == 0 || len(a.body) < 4 {
+						a.body = append(a.body, gen.Bytes(r, 1+r.Intn(5))...)
+					} else {
+						a.body = a.body[:len(a.body)-1-r.Intn(3)]
+					}
+					emit(a, follower(a))
+				}
+			}
+		}
+	}
 	out.Flush()
 	fmt.Fprintf(os.Stderr, "c11 driver: %d cases, %d slower than 3s\n", ncases, nslow)
 }
